@@ -41,6 +41,8 @@ def panic_class(msg):
         return "unreachable!"
     if "unwrap" in m and "none" in m:
         return "unwrap-none"
+    if "multiple unknown size fields" in m:
+        return "multiple-unknown-size-fields"
     return re.sub(r"[^a-z]+", "-", m)[:40]
 
 
